@@ -46,7 +46,8 @@ TCancel   == Is("cancel") /\ Cancel(Ev.s) /\ Adv
 TChClosed == Is("chanclosed") /\ ChanClosed(Ev.s) /\ Adv
 TCloseS   == Is("closestart") /\ CloseStart(Ev.c) /\ Adv
 TCloseE   == Is("closeend") /\ CloseEnd(Ev.c) /\ Ev.open = << >> /\ Adv     \* every output channel is closed when Close returns
-TQuiesce  == Is("quiesce") /\ Ev.origintact /\ Quiescent /\ UNCHANGED avars /\ Adv
+\* (compared with TRUE so that TLC evaluates the predicate instead of enumerating the disjunctions under its \A as branches: 2^subscriptions)
+TQuiesce  == Is("quiesce") /\ Ev.origintact /\ (Quiescent = TRUE) /\ UNCHANGED avars /\ Adv
 TSilent   == /\ ~cfg.persistent
              /\ \/ \E p \in DOMAIN pub : PublishLin(p)
                 \/ \E s \in DOMAIN sub : SubscribeLin(s)
